@@ -176,8 +176,11 @@ def snapQuery (sig : Sig) (s : Snap) (q : String) : String :=
      | none => "none")
   | ["best", cfS, i] =>
     let cf := match cfS with | "ast" => Extract.CF.ast | "depth" => Extract.CF.depth | _ => Extract.CF.op
-    let t := Extract.minCost cf s
+    -- the model of `Extractor::new`'s heap loop (proved to end with an accepted table: `dijkstra_accepted`); the
+    -- checker and the relaxation table are evaluated as well, as a run-time cross-check of the compiled code
+    let t := Extract.dijkstra cf s
     if !Extract.checkTable cf s t then "table-rejected"
+    else if Extract.Table.get (Extract.minCost cf s) (nat! i) != Extract.Table.get t (nat! i) then "tables-differ"
     else (match Extract.Table.get t (nat! i) with | some k => toString k | none => "none")
   | ["fix", kS] =>
     let k := match kS with | "minsize" => Analysis.Kind.minSize | "const" => Analysis.Kind.const | _ => Analysis.Kind.minDepth
